@@ -296,6 +296,14 @@ impl Corpus for Tree {
     }
 }
 
+/// `opt^70 nat8`: a type table with more than 64 entries (table indices above 63
+/// need two SLEB128 bytes).
+macro_rules! nest_opt {
+    ($t:ty;) => { $t };
+    ($t:ty; $h:tt $($r:tt)*) => { nest_opt!(Option<$t>; $($r)*) };
+}
+pub type Opt70 = nest_opt!(u8; x x x x x x x x x x x x x x x x x x x x x x x x x x x x x x x x x x x x x x x x x x x x x x x x x x x x x x x x x x x x x x x x x x x x x x);
+
 /// Mutually recursive triple (two members reach each other only through the third).
 #[derive(CandidType, Deserialize, Debug, Clone, PartialEq)]
 pub struct TriX {
